@@ -56,10 +56,11 @@ type Node struct {
 
 // Op is one step of the raw-client session.
 type Op struct {
-	Kind   string   `json:"op"` // walk, stat, clunk
+	Kind   string   `json:"op"` // walk, stat, clunk, open, read
 	Fid    uint32   `json:"fid"`
 	Newfid uint32   `json:"newfid,omitempty"`
 	Names  [][]byte `json:"names,omitempty"`
+	Mode   uint8    `json:"mode,omitempty"` // open: OREAD 0, OWRITE 1, ORDWR 2, OEXEC 3 (never OTRUNC / ORCLOSE: the tree stays as built)
 }
 
 // CliOp is one call of the go9p client.
@@ -265,6 +266,7 @@ type executor struct {
 	raw     *rawc.C
 	dotu    bool              // dialect of the raw connection
 	model   map[uint32]string // fid -> host path it must designate
+	opened  map[uint32]uint8  // fids opened by a successful Topen -> mode
 	wire    *xport.End // server end of the go9p client's connection
 	wireOff int
 	scratch string
@@ -343,7 +345,7 @@ func setup(c *Case) (*executor, error) {
 		return nil, infraf("MkdirTemp: %v", err)
 	}
 	root := dir + "/r"
-	x := &executor{c: c, scratch: dir, root: root, model: map[uint32]string{}}
+	x := &executor{c: c, scratch: dir, root: root, model: map[uint32]string{}, opened: map[uint32]uint8{}}
 	x.paths, err = buildTree(c, root)
 	if err != nil {
 		return x, err
@@ -492,9 +494,144 @@ func (x *executor) doOp(i int, op *Op) error {
 			return fmt.Errorf("op %d: Tclunk(fid %d) of a live fid answered %s %q", i, op.Fid, ref9p.TypeName(r.Type), r.Ename)
 		}
 		delete(x.model, op.Fid)
+		delete(x.opened, op.Fid)
 		return nil
+	case "open":
+		if _, ok := x.model[op.Fid]; !ok || op.Fid == 0 {
+			hx.Label("op skipped (fid not live)")
+			return nil
+		}
+		return x.doOpen(lazy(func() string { return fmt.Sprintf("op %d", i) }), op.Fid, op.Mode)
+	case "read":
+		if _, ok := x.model[op.Fid]; !ok {
+			hx.Label("op skipped (fid not live)")
+			return nil
+		}
+		return x.doRead(lazy(func() string { return fmt.Sprintf("op %d", i) }), op.Fid)
 	}
 	return infraf("case: unknown op %q", op.Kind)
+}
+
+func kindOf(fi os.FileInfo) string {
+	switch {
+	case fi.IsDir():
+		return "dir"
+	case fi.Mode()&os.ModeSymlink != 0:
+		return "symlink"
+	case fi.Mode().IsRegular():
+		return "file"
+	}
+	return "other"
+}
+
+// doOpen sends Topen on a fid that is not open yet and then Tstat on the
+// opened fid. Files (any access mode) and directories (OREAD) must open;
+// whether a fid designating a symbolic link can be opened is not judged (Ufs
+// opens the link's target on the host). The Ropen qid and the stat of the
+// opened fid must agree with os.Lstat of the path the fid designates - for a
+// symlink fid that is the link itself, not what the server's descriptor
+// happens to refer to.
+func (x *executor) doOpen(pfx lazy, fid uint32, mode uint8) error {
+	P := x.model[fid]
+	if _, is := x.opened[fid]; is {
+		hx.Label("op skipped (fid already open)")
+		return nil
+	}
+	if mode > 3 {
+		return infraf("case: open mode %#x would change the tree", mode)
+	}
+	fi, err := os.Lstat(P)
+	if err != nil {
+		return infraf("model path vanished: %v", err)
+	}
+	kind := kindOf(fi)
+	if kind == "dir" && mode != 0 {
+		hx.Label("op skipped (directory, mode other than OREAD)")
+		return nil
+	}
+	what := lazy(func() string {
+		return fmt.Sprintf("%s: Topen(fid %d at %s, mode %d) .u=%v", pfx, fid, shortPath(x.root, P), mode, x.dotu)
+	})
+	hx.Eval()
+	r, err := x.raw.Open(fid, mode)
+	if err != nil {
+		return rpcErr(what, err)
+	}
+	outcome := "Ropen"
+	switch {
+	case r.Type == ref9p.Ropen:
+		if d := x.qidDiff(r.Qid.Type, r.Qid.Path, fi); len(d) > 0 {
+			return fmt.Errorf("%s: Ropen qid disagrees with os.Lstat of the path the fid designates: %s", what, strings.Join(d, "; "))
+		}
+		x.opened[fid] = mode
+	case kind == "symlink":
+		outcome = "Rerror(not judged)"
+	default:
+		return fmt.Errorf("%s: a %s must open, got %s %q", what, kind, ref9p.TypeName(r.Type), r.Ename)
+	}
+	target := ""
+	if kind == "symlink" {
+		target = " -> dangling"
+		if tfi, err := os.Stat(P); err == nil {
+			target = " -> " + kindOf(tfi)
+		}
+	}
+	hx.Label(fmt.Sprintf("open kind=%s%s mode=%d %s", kind, target, mode, outcome))
+	if kind == "symlink" && r.Type == ref9p.Ropen {
+		hx.NonTrivial("open-symlink", x.treeH, strings.TrimPrefix(P, x.root), mode, x.dotu)
+	}
+	return x.expectStat(what.plus(" then Tstat(fid)"), fid)
+}
+
+// doRead reads the first bytes through an opened fid and stats it again: a
+// read must not change what the fid reports. The data is compared for regular
+// files opened for reading; for directories (C15) and symlink fids the reply
+// is not judged.
+func (x *executor) doRead(pfx lazy, fid uint32) error {
+	P := x.model[fid]
+	mode, is := x.opened[fid]
+	if !is {
+		hx.Label("op skipped (read on a fid that is not open)")
+		return nil
+	}
+	if mode&3 == 1 {
+		hx.Label("op skipped (read on a fid opened OWRITE)")
+		return nil
+	}
+	fi, err := os.Lstat(P)
+	if err != nil {
+		return infraf("model path vanished: %v", err)
+	}
+	kind := kindOf(fi)
+	count := uint32(64)
+	if kind != "file" {
+		count = 4096
+	}
+	what := lazy(func() string {
+		return fmt.Sprintf("%s: Tread(fid %d at %s opened with mode %d, offset 0, count %d) .u=%v", pfx, fid, shortPath(x.root, P), mode, count, x.dotu)
+	})
+	hx.Eval()
+	r, err := x.raw.Read(fid, 0, count)
+	if err != nil {
+		return rpcErr(what, err)
+	}
+	if kind == "file" && mode != 3 {
+		if r.Type != ref9p.Rread {
+			return fmt.Errorf("%s: got %s %q", what, ref9p.TypeName(r.Type), r.Ename)
+		}
+		want := make([]byte, count)
+		lf, err := os.Open(P)
+		if err != nil {
+			return infraf("open %q: %v", P, err)
+		}
+		n, _ := lf.ReadAt(want, 0)
+		lf.Close()
+		if !bytes.Equal(r.Data, want[:n]) {
+			return fmt.Errorf("%s: data %q differs from the first bytes of the local file %q", what, r.Data, want[:n])
+		}
+	}
+	hx.Label(fmt.Sprintf("read kind=%s %s", kind, ref9p.TypeName(r.Type)))
+	return x.expectStat(what.plus(" then Tstat(fid)"), fid)
 }
 
 // expectStat sends Tstat on fid and compares: a fid the model knows must stat
@@ -560,6 +697,10 @@ func (x *executor) doWalk(i int, op *Op) error {
 	P, ok := x.model[op.Fid]
 	if !ok {
 		hx.Label("op skipped (fid not live)")
+		return nil
+	}
+	if _, is := x.opened[op.Fid]; is {
+		hx.Label("op skipped (walk from an open fid)")
 		return nil
 	}
 	inplace := op.Newfid == op.Fid
@@ -786,10 +927,42 @@ func (x *executor) visitAll() error {
 		if err := check(what, i, fid); err != nil {
 			return err
 		}
+		// open the node (OREAD), stat the opened fid, read, stat again. Every
+		// non-directory node is opened on the visiting fid; of the directories
+		// (whose fids are still needed to reach the children, and an open fid
+		// cannot be walked) the root and every third one are opened on a clone.
+		openOn := func(f uint32) error {
+			x.model[f] = p
+			defer func() { delete(x.model, f); delete(x.opened, f) }()
+			if err := x.doOpen(what, f, 0); err != nil {
+				return err
+			}
+			return x.doRead(what, f)
+		}
 		if x.c.Tree[i].Kind == "d" {
 			dirFids = append(dirFids, fid)
-		} else if err := clunk(what, fid); err != nil {
-			return err
+			if i%3 == 0 {
+				r, err := x.raw.Walk(fid, tmp)
+				if err != nil {
+					return rpcErr(what, err)
+				}
+				if r.Type != ref9p.Rwalk || len(r.Wqid) != 0 {
+					return fmt.Errorf("%s: cloning the fid answered %s %q", what, ref9p.TypeName(r.Type), r.Ename)
+				}
+				if err := openOn(tmp); err != nil {
+					return err
+				}
+				if err := clunk(what, tmp); err != nil {
+					return err
+				}
+			}
+		} else {
+			if err := openOn(fid); err != nil {
+				return err
+			}
+			if err := clunk(what, fid); err != nil {
+				return err
+			}
 		}
 		hx.Label(fmt.Sprintf("visit depth=%s", depthClass(depth[i])))
 
